@@ -713,7 +713,7 @@ func VerifC33_roundtrip() {
 }
 
 // ---------------------------------------------------------------------------------------------------------
-// Known finding C33-peer-sized-alloc (DESIGN.md §7 item 4).
+// Finding C33-peer-sized-alloc (DESIGN.md §7 item 4), repaired in /repo; the text below describes the defect.
 //
 // readPrefixedStringWithByte bounds a declared string size only by st.lim, and st.lim is the frame length the
 // peer declared in the frame header (any value < 2^62; neither server.go nor roundtrip.go caps it): a 20-byte
@@ -722,7 +722,7 @@ func VerifC33_roundtrip() {
 // the runtime for S bytes: up to 2^47 per request stream). Nothing on the request path recovers, so the panic
 // takes the process down. The main harnesses above keep frame lengths below 64 and therefore never reach this.
 // This harness states the property for the oversized case: the decoder must reject such a string without
-// panicking. While the key is listed in known_findings.txt the violation is reported as KNOWN-FINDING.
+// panicking.
 func VerifC33_alloc() {
 	l := vfU64("framelen")
 	size := vfU64("stringsize")
@@ -740,8 +740,12 @@ func VerifC33_alloc() {
 	var err error
 	panicked := vfExpectPanic(func() { _, err = c33run(st) })
 	vfObserveBool("panicked", panicked)
-	vfAssertKF(!panicked, "oversized string rejected without panicking", "C33-peer-sized-alloc", vfAnd(panicked, inFrame))
+	// (fixed finding C33-peer-sized-alloc: make([]byte, size) with the peer-declared size panicked for in-frame
+	// sizes >= 2^48; the repaired reader lets its buffer grow with the bytes that actually arrive)
+	vfAssert(!panicked, "oversized string rejected without panicking")
 	vfAssert(err == errQPACKDecompressionFailed, "oversized string rejected")
-	vfAssert(!inFrame, "(only strings larger than the rest of the frame are rejected at this commit)")
+	if inFrame {
+		vfReach("in-frame")
+	}
 	vfReach("end")
 }
